@@ -1,7 +1,7 @@
 /-
   C15 model driver (acceptor mode). One request line = one observed execution:
     (run fixed|unfixed <label>*)
-  labels: (go t) (batch k item p) (chain t (p*)) (fin t val err) (idle) (flush (k (val err)*)*)
+  labels: (go t [dep]) (batch k item p [dep]) (chain t (p*)) (fin t val err) (idle) (flush (k (val err)*)*)
           (recvb t) (drain t) (iret) (ret) (release t)            -- err is 0|1
   reply:  (ok (next n) (phase ph) (running t*) (blocked t*) (pending (k item*)*)
               (calls (wave k (item*) (dest*))*) (delivered (p val err)*) (orphaned p*) (destfull b) (crashed b))
@@ -24,8 +24,10 @@ def res? : Sexp → Option Res
   | _ => none
 
 def label? : Sexp → Option Label
-  | Sexp.list [Sexp.atom "go", t] => do pure (.go (← t.nat?))
-  | Sexp.list [Sexp.atom "batch", k, i, p] => do pure (.batch (← k.nat?) (← i.nat?) (← p.nat?))
+  | Sexp.list [Sexp.atom "go", t] => do pure (.go (← t.nat?) none)
+  | Sexp.list [Sexp.atom "go", t, d] => do pure (.go (← t.nat?) (some (← d.nat?)))
+  | Sexp.list [Sexp.atom "batch", k, i, p] => do pure (.batch (← k.nat?) (← i.nat?) (← p.nat?) none)
+  | Sexp.list [Sexp.atom "batch", k, i, p, d] => do pure (.batch (← k.nat?) (← i.nat?) (← p.nat?) (some (← d.nat?)))
   | Sexp.list [Sexp.atom "chain", t, Sexp.list ps] => do pure (.chain (← t.nat?) (← natList? ps))
   | Sexp.list [Sexp.atom "fin", t, v, e] => do pure (.fin (← t.nat?) ⟨← v.nat?, (← e.nat?) != 0⟩)
   | Sexp.list [Sexp.atom "idle"] => some .idle
